@@ -2,6 +2,7 @@ import KoordVerif.Common.Proto
 import KoordVerif.Model.C02
 import KoordVerif.Model.C02Scale
 import KoordVerif.Model.C02Glue
+import KoordVerif.Model.C02Nodes
 /-
 Driver for C02.  Case =
   total <T>
@@ -16,6 +17,9 @@ Declared-object blocks (spec harness; one parent, one dimension):
   gq <name> <lendLabel> <childReq> <alloc> <nmax> (<dim> <v>)* <nmin> (<dim> <v>)* <annClass> <nann> (<dim> <v>)*
   grun → `in <name> <weight> <request> <min> <guarantee> <lend>` per child (the derived quotaNode), then
          `rt <name> <runtime>` per child, both sorted by name, then `end`.
+Node events (nodes harness; `<rl>` = `<n> (<dim> <v>)*n`):
+  nadd <node> <rl> | nupd <node> <oldrl> <newrl> | ndel <node> <rl>
+         → `ntot <total cpu mem gpu> <root calculator's total cpu mem gpu> n <k> <known node ids, sorted>* x 0`
 -/
 namespace KoordVerif.C02
 open KoordVerif.Proto
@@ -33,6 +37,7 @@ structure DState where
   ggate : Bool := false
   gscale : Bool := false
   gqs   : List QDecl := []
+  nst   : NS := {}
 
 def insertByName (p : Nat × Int) : List (Nat × Int) → List (Nat × Int)
   | [] => [p]
@@ -78,8 +83,39 @@ def insertNode (p : Node) : List Node → List Node
   | [] => [p]
   | q :: qs => if p.name ≤ q.name then p :: q :: qs else q :: insertNode p qs
 
+def insertNat (p : Nat) : List Nat → List Nat
+  | [] => [p]
+  | q :: qs => if p ≤ q then p :: q :: qs else q :: insertNat p qs
+
+def parseNEv (kind : String) (ts : List Int) : Option NEv :=
+  match ts with
+  | n :: rest =>
+    if n < 0 then none else
+    match takeRL rest with
+    | some (a, rest1) =>
+      if kind = "nadd" then (if rest1 = [] then some (.add n.toNat a) else none)
+      else if kind = "ndel" then (if rest1 = [] then some (.delete n.toNat a) else none)
+      else match takeRL rest1 with
+        | some (b, []) => some (.update n.toNat a b)
+        | _ => none
+    | none => none
+  | [] => none
+
+def showNS (s : NS) : String :=
+  let known := s.known.foldr insertNat []
+  s!"ntot {rlGet s.total 0} {rlGet s.total 1} {rlGet s.total 2} {rlGet s.pushed 0} {rlGet s.pushed 1} {rlGet s.pushed 2} n {known.length}" ++
+    String.join (known.map (fun k => s!" {k}")) ++ " x 0"
+
+def stepNode (s : DState) (kind : String) (rest : List String) : DState :=
+  match (ints? rest).bind (parseNEv kind) with
+  | some e => let n := s.nst.step rlSub e; { s with nst := n, out := s.out ++ [showNS n] }
+  | none => { s with bad := true, out := s.out ++ ["bad-op"] }
+
 def stepLine (s : DState) (line : String) : DState :=
   match toks line with
+  | "nadd" :: rest => stepNode s "nadd" rest
+  | "nupd" :: rest => stepNode s "nupd" rest
+  | "ndel" :: rest => stepNode s "ndel" rest
   | ["step", k] => match nat? k with
     | some k => { s with out := s.out ++ [s!"step {k}"] }
     | none => { s with bad := true, out := s.out ++ ["bad-op"] }
